@@ -24,7 +24,8 @@ T0 = 1000.0
 
 
 class Err(Exception):
-    pass
+    def __bool__(self):
+        return False    # exceptions are user objects too: nothing may decide by their truthiness
 
 
 class ThrottleDriver:
